@@ -233,6 +233,12 @@ func (cp *CollectingProcess) decodePacket(packetBuffer *bytes.Buffer, exportAddr
 	exportAddress = strings.Replace(exportAddress, "]", "", -1)
 	message.SetExportAddress(exportAddress)
 
+	// The set ends where its length field says, not where the message ends: what follows it
+	// (further sets, which are not supported) must not be taken for its content.
+	if n := int(setLen) - entities.SetHeaderLen; n >= 0 && n < packetBuffer.Len() {
+		packetBuffer = bytes.NewBuffer(packetBuffer.Next(n))
+	}
+
 	var set entities.Set
 	var err error
 	if setID == entities.TemplateSetID {
